@@ -42,6 +42,17 @@ pub fn install_hook() {
             if verbose {
                 prev(info);
             }
+            // The standard library's debug checks of unsafe preconditions (`get_unchecked` out of
+            // range, ...) abort the process right after this hook. If the offending call sits in
+            // the code under test, leave a marker for the orchestrator: that abort is a finding.
+            if msg.starts_with("unsafe precondition(s) violated") && !file.starts_with("src/") {
+                if let Some(t) = std::env::var_os("VERIF_TRACE_FILE") {
+                    let mut path = t;
+                    path.push(".ub");
+                    let first = msg.lines().next().unwrap_or("");
+                    let _ = std::fs::write(&path, format!("{file}:{line}: {first}"));
+                }
+            }
             let _ = LAST.try_with(|l| {
                 *l.borrow_mut() = Some(PanicInfo { file, line, msg });
             });
